@@ -63,6 +63,7 @@ type Script struct {
 	nfresh   int
 	bv       bool
 	strSMT   bool
+	strBytes bool // SMT strings: some character code is inspected, so the byte range matters
 	strLits  map[string]string
 	strOrder []string
 	heapDecl map[string]string // heap key -> sort
@@ -156,10 +157,12 @@ func sanitize(x string) string {
 }
 
 func typeKey(t types.Type) string {
+	t = types.Unalias(t)
 	return types.TypeString(t, func(p *types.Package) string { return p.Path() })
 }
 
 func shortTypeName(t types.Type) string {
+	t = types.Unalias(t)
 	s := types.TypeString(t, func(p *types.Package) string {
 		parts := strings.Split(p.Path(), "/")
 		return parts[len(parts)-1]
@@ -483,7 +486,10 @@ func (s *Script) typeInvList(t types.Type, term string, depth int) []string {
 		}
 		if s.strSMT && u.Info()&types.IsString != 0 {
 			// Go strings are byte sequences: every character code is at most 255
-			return []string{"(str.in_re " + term + " (re.* (re.range \"\\u{0}\" \"\\u{ff}\")))"}
+			// (strbytes is `true` unless the script looks at individual characters: with more
+			// characters than Go has, every other operation still agrees with Go on Go's strings,
+			// so proofs stay valid and the solvers are several times faster)
+			return []string{"(strbytes " + term + ")"}
 		}
 	case *types.Pointer, *types.Map, *types.Chan, *types.Signature:
 		return []string{"(>= " + term + " 0)"}
@@ -659,6 +665,13 @@ func (s *Script) render(n int) string {
 	for _, p := range s.strPrelude() {
 		b.WriteString(p)
 		b.WriteByte('\n')
+	}
+	if s.strSMT {
+		if s.strBytes {
+			b.WriteString("(define-fun strbytes ((s String)) Bool (str.in_re s (re.* (re.range \"\\u{0}\" \"\\u{ff}\"))))\n")
+		} else {
+			b.WriteString("(define-fun strbytes ((s String)) Bool true)\n")
+		}
 	}
 	if n > len(s.cmds) {
 		n = len(s.cmds)
